@@ -406,6 +406,8 @@ impl Mat3 {
     /// Panics if `slice` is less than 9 elements long.
     #[inline]
     pub fn write_cols_to_slice(self, slice: &mut [f32]) {
+        // check the length once, before anything is written
+        let slice = &mut slice[..9];
         slice[0] = self.x_axis.x;
         slice[1] = self.x_axis.y;
         slice[2] = self.x_axis.z;
